@@ -20,6 +20,7 @@
 From Coq Require Import ZArith Bool List.
 From Ice Require Import Model.AgentTypes Model.AgentCore Model.PairMonitor Model.TwoAgents Gen.Consts Proofs.AgentFrame Proofs.AgentC01 Proofs.TwoAgentsProofs Proofs.TwoAgentsReach Proofs.TwoAgentsLite.
 From Ice Require Import Model.TwoAgentsData Proofs.AgentEnds Proofs.TwoAgentsDataProofs Proofs.TwoAgentsProjection.
+From Ice Require Import Proofs.AgentC06 Proofs.AgentRem Proofs.AgentSingleNom Proofs.AgentNomInv Proofs.TwoAgentsWire.
 Import ListNotations.
 Local Open Scope Z_scope.
 
@@ -147,3 +148,51 @@ Example C01_example_projection :
   (length (history_of (E 5) (E 6) t true d0 ops), length (history_of (E 5) (E 6) t false d0 ops)) = (14%nat, 10%nat) /\
   s_selected (runs (E 5) (init 1 2) (history_of (E 5) (E 6) t true d0 ops)) = Some 1.
 Proof. vm_compute. split; reflexivity. Qed.
+
+(* ---- single nomination on the wire (Proofs/TwoAgentsWire.v; the nomination mechanism of C01).  [XInv t x sy]: agent x's
+   bookkeeping invariants (unique pair IDs, consistent remote candidates, nominated record agreeing with the checklist)
+   and "every USE-CANDIDATE request of x in flight is the routed image of a send on x's recorded nominated pair";
+   [wire_run_ok]: every operation x itself performs along the schedule is admissible (fresh candidate objects, own-family
+   datagrams) and neither restarts x's selector nor is an application renomination.  Then, whatever is delivered,
+   dropped or duplicated, all of x's USE-CANDIDATE requests in flight reach ONE socket of the peer from ONE address. *)
+Theorem C01_use_candidate_flights_share_one_path : forall cfga cfgb t x sy ops f1 f2,
+  XInv t x sy -> wire_run_ok cfga cfgb t x sy ops ->
+  let net := sy_net (sys_run cfga cfgb t sy ops) in
+  In f1 net -> use_flight x f1 -> In f2 net -> use_flight x f2 ->
+  f_lh f1 = f_lh f2 /\ f_src f1 = f_src f2.
+Proof. exact use_candidate_flights_share_one_path. Qed.
+Print Assumptions C01_use_candidate_flights_share_one_path.
+
+Theorem C01_wire_invariant_initially : forall t x lua lpa lub lpb, XInv t x (sys_init lua lpa lub lpb).
+Proof. exact XInv_init. Qed.
+Print Assumptions C01_wire_invariant_initially.
+
+Module C01_example_wire.
+  Definition cfg t := mkConfig false t 7 5000000000 false 25000000000 0 0 0 0 0 [] false false 1.
+  Definition aA := mkAddr false 167772161 5000.
+  Definition aB := mkAddr false 3232235777 6000.
+  Definition la := mkCand 1 1 1 aA 0 2130706431 1 None.
+  Definition lb := mkCand 1 1 1 aB 0 2130706431 1 None.
+  Definition topo := mkTopology [mkEndpoint 1 aA] [mkEndpoint 1 aB] [[(true, true)]].
+  Definition setup := [SApi true (AddLocal la); SApi false (AddLocal lb); SApi true (Start true 3 4); SApi false (Start false 1 2)].
+  Definition sy1 := sys_run (cfg 5) (cfg 6) topo (sys_init 1 2 3 4) setup.
+  (* checks, then two nominations of A in a row (the first one's answer is dropped), one of them duplicated *)
+  Definition sched :=
+    [SApi true (AddRemote (set_c_h 2 lb)); SApi false (AddRemote (set_c_h 2 la));
+     SApi true Tick; SDeliver 0; SDeliver 0; SApi false Tick; SDeliver 0; SDeliver 0;
+     SApi true (Advance 200000000); SApi true Tick; SDup 0; SApi true (Advance 200000000); SApi true Tick].
+  Definition uses := filter (fun f => negb (f_to_a f) && (m_class (f_msg f) =? 0) && m_use (f_msg f)) (sy_net (sys_run (cfg 5) (cfg 6) topo sy1 sched)).
+  Example hypotheses_hold : XInv topo true sy1 /\ wire_run_ok (cfg 5) (cfg 6) topo true sy1 sched.
+  Proof.
+    split.
+    - unfold XInv, ag. split; [|split; [|split]].
+      + unfold InvU. vm_compute. repeat split; try constructor; discriminate.
+      + right. apply Rm_empty; vm_compute; try reflexivity; intros H; discriminate H.
+      + vm_compute. exact I.
+      + unfold WireInv. vm_compute. constructor.
+    - vm_compute. repeat split;
+        try (intros [] ; discriminate); try (intros l El; injection El as <-; reflexivity);
+        try (intros l El; discriminate El); try (intros H; destruct H as [H|[]]; discriminate H); try (intros []);
+        try (intros [tb H]; discriminate H).
+  Qed.
+End C01_example_wire.
